@@ -112,7 +112,7 @@ class CSemantics:
                 size = modifier[1]
                 if size and size != "vla":
                     self.ensure_constant(size, "Array dimension")
-                    size = self.coerce(size, self.get_type(["int"]))
+                    size = self.coerce(size, self.size_t_type)
                 typ = types.ArrayType(typ, size)
             elif modifier[0] == "FUNCTION":
                 arguments = modifier[1]
